@@ -14,7 +14,10 @@ package ipoe
 
 import (
 	"bufio"
+	"context"
 	"encoding/binary"
+	"encoding/json"
+	"sync"
 	"fmt"
 	"math/big"
 	"net"
@@ -35,6 +38,8 @@ import (
 	"github.com/veesix-networks/osvbng/pkg/config/subscriber"
 	"github.com/veesix-networks/osvbng/pkg/dataplane"
 	"github.com/veesix-networks/osvbng/pkg/dhcp4"
+	"github.com/veesix-networks/osvbng/pkg/dhcp6"
+	"github.com/veesix-networks/osvbng/pkg/opdb"
 	"github.com/veesix-networks/osvbng/pkg/events"
 	"github.com/veesix-networks/osvbng/pkg/ifmgr"
 	"github.com/veesix-networks/osvbng/pkg/logger"
@@ -43,11 +48,13 @@ import (
 	"github.com/veesix-networks/osvbng/pkg/southbound"
 	"github.com/veesix-networks/osvbng/pkg/svcgroup"
 	dhcp4local "github.com/veesix-networks/osvbng/plugins/dhcp4/local"
+	dhcp6local "github.com/veesix-networks/osvbng/plugins/dhcp6/local"
 )
 
 type c02Bus struct {
 	egress [][]byte
 	dst    []string
+	v6     []bool
 	aaa    []*events.AAARequestEvent
 }
 
@@ -57,6 +64,7 @@ func (b *c02Bus) Publish(topic string, ev events.Event) {
 		if e, ok := ev.Data.(*events.EgressEvent); ok {
 			b.egress = append(b.egress, append([]byte(nil), e.Packet.RawData...))
 			b.dst = append(b.dst, e.Packet.DstMAC)
+			b.v6 = append(b.v6, e.Protocol == models.ProtocolDHCPv6)
 		}
 	case events.TopicAAARequest:
 		if e, ok := ev.Data.(*events.AAARequestEvent); ok {
@@ -113,6 +121,55 @@ func (v *c02VPP) IPoESetDelegatedPrefixAsync(swIfIndex uint32, prefix net.IPNet,
 	cb(nil)
 }
 func (v *c02VPP) SetUnnumberedAsync(swIfIndex uint32, loopbackName string, cb func(error)) { cb(nil) }
+func (v *c02VPP) AddIPoESession(_, _ net.HardwareAddr, _ uint32, _, _ uint16, _ uint32) (uint32, error) {
+	v.nextIf++
+	return 1000 + v.nextIf, nil
+}
+func (v *c02VPP) IPoESetSessionIPv4(uint32, net.IP, bool) error                    { return nil }
+func (v *c02VPP) IPoESetSessionIPv6(uint32, net.IP, bool) error                    { return nil }
+func (v *c02VPP) IPoESetDelegatedPrefix(uint32, net.IPNet, net.IP, bool) error     { return nil }
+func (v *c02VPP) DumpInterfaces() ([]southbound.InterfaceInfo, error)              { return nil, nil }
+
+// in-memory opdb that survives the simulated restart; Load visits the images in declaration order
+type c02Store struct {
+	mu    sync.Mutex
+	data  map[string][]byte
+	order func(keys []string)
+}
+
+func (s *c02Store) Put(_ context.Context, ns, key string, value []byte) error {
+	s.mu.Lock()
+	defer s.mu.Unlock()
+	s.data[key] = append([]byte(nil), value...)
+	return nil
+}
+func (s *c02Store) Delete(_ context.Context, ns, key string) error {
+	s.mu.Lock()
+	defer s.mu.Unlock()
+	delete(s.data, key)
+	return nil
+}
+func (s *c02Store) Load(_ context.Context, ns string, fn opdb.LoadFunc) error {
+	s.mu.Lock()
+	keys := make([]string, 0, len(s.data))
+	snap := map[string][]byte{}
+	for k, v := range s.data {
+		keys = append(keys, k)
+		snap[k] = v
+	}
+	s.mu.Unlock()
+	s.order(keys)
+	for _, k := range keys {
+		if err := fn(k, snap[k]); err != nil {
+			return err
+		}
+	}
+	return nil
+}
+func (s *c02Store) Count(context.Context, string) (int, error) { return len(s.data), nil }
+func (s *c02Store) Clear(context.Context, string) error        { s.data = map[string][]byte{}; return nil }
+func (s *c02Store) Stats() opdb.Stats                          { return opdb.Stats{} }
+func (s *c02Store) Close() error                               { return nil }
 
 func c02V4(tok string) net.IP {
 	n, _ := strconv.ParseUint(tok, 10, 32)
@@ -128,6 +185,20 @@ func c02Num(ipa net.IP) string {
 		return strconv.FormatUint(uint64(binary.BigEndian.Uint32(v4)), 10)
 	}
 	return new(big.Int).SetBytes(ipa.To16()).String()
+}
+func c02V6(tok string) net.IP {
+	n, _ := new(big.Int).SetString(tok, 10)
+	b := n.Bytes()
+	out := make([]byte, 16)
+	copy(out[16-len(b):], b)
+	return net.IP(out)
+}
+func c02Pfx(p *net.IPNet) string {
+	if p == nil {
+		return "nil"
+	}
+	ones, _ := p.Mask.Size()
+	return new(big.Int).SetBytes(p.IP.To16()).String() + "/" + strconv.Itoa(ones)
 }
 func c02VRF(tok string) string {
 	if tok == "0" {
@@ -151,6 +222,8 @@ type c02World struct {
 	bus   *c02Bus
 	vpp   *c02VPP
 	prov  *dhcp4local.Provider
+	prov6 *dhcp6local.Provider
+	store *c02Store
 	subs  map[string]*c02Sub2
 	names map[string]string // component session id -> s<k+100*inc>
 }
@@ -184,6 +257,19 @@ func c02Build(toks []string) (*c02World, error) {
 				}
 			}
 			v4[pn].Pools = append(v4[pn].Pools, pool)
+		case "P6":
+			key, prof, vrf, lo, hi := toks[i+1], toks[i+2], toks[i+3], toks[i+4], toks[i+5]
+			i += 6
+			lip := c02V6(lo)
+			netw := (&net.IPNet{IP: lip.Mask(net.CIDRMask(64, 128)), Mask: net.CIDRMask(64, 128)}).String()
+			v6["q"+prof].IANAPools = append(v6["q"+prof].IANAPools, ip.IANAPool{Name: "k" + key, Network: netw,
+				RangeStart: lip.String(), RangeEnd: c02V6(hi).String(), VRF: c02VRF(vrf)})
+		case "PD":
+			key, prof, vrf, base, nb, pl := toks[i+1], toks[i+2], toks[i+3], toks[i+4], toks[i+5], toks[i+6]
+			i += 7
+			netw := (&net.IPNet{IP: c02V6(base), Mask: net.CIDRMask(atoi(nb), 128)}).String()
+			v6["q"+prof].PDPools = append(v6["q"+prof].PDPools, ip.PDPool{Name: "k" + key, Network: netw,
+				PrefixLength: uint8(atoi(pl)), VRF: c02VRF(vrf)})
 		case "G":
 			g := &subscriber.SubscriberGroup{VLANs: []subscriber.VLANRange{{SVLAN: strconv.Itoa(100 + atoi(toks[i+1]))}}}
 			if toks[i+2] != "-" {
@@ -204,16 +290,39 @@ func c02Build(toks []string) (*c02World, error) {
 		}
 	}
 	w.cfg = &config.Config{SubscriberGroups: &subscriber.SubscriberGroupsConfig{Groups: groups}, IPv4Profiles: v4, IPv6Profiles: v6}
+	w.store = &c02Store{data: map[string][]byte{}}
+	w.store.order = func(keys []string) {
+		rank := func(id string) int { // declaration order of the subscriber, then incarnation
+			n := atoi(strings.TrimPrefix(w.names[id], "s"))
+			return (n%100)*100 + n/100
+		}
+		sort.Slice(keys, func(i, j int) bool { return rank(keys[i]) < rank(keys[j]) })
+	}
+	if err := w.boot(); err != nil {
+		return nil, err
+	}
+	return w, nil
+}
+
+// boot starts one "process": fresh registry, fresh provider lease tables, fresh component; only the opdb store
+// is carried over.
+func (w *c02World) boot() error {
 	allocator.ResetGlobalRegistry()
 	p, err := dhcp4local.New(w.cfg)
 	if err != nil {
-		return nil, err
+		return err
 	}
 	w.prov = p.(*dhcp4local.Provider)
+	p6, err := dhcp6local.New(w.cfg)
+	if err != nil {
+		return err
+	}
+	w.prov6 = p6.(*dhcp6local.Provider)
 	ifMgr := ifmgr.New()
 	ifMgr.Add(&ifmgr.Interface{SwIfIndex: 10, SupSwIfIndex: 2, Name: "TenGigE0/0.100", Type: ifmgr.IfTypeSub, OuterVlanID: 100})
 	ifMgr.Add(&ifmgr.Interface{SwIfIndex: 2, Name: "TenGigE0/0", Type: ifmgr.IfTypeHardware, MAC: []byte{0x52, 0x54, 0, 0x11, 0x22, 0x33}})
 	w.bus = &c02Bus{}
+	w.vpp.pending = nil
 	w.comp = &Component{
 		Base:             component.NewBase("ipoe-c02"),
 		logger:           logger.NewTest(),
@@ -222,13 +331,25 @@ func c02Build(toks []string) (*c02World, error) {
 		cfgMgr:           &c02CfgMgr{cfg: w.cfg},
 		svcGroupResolver: svcgroup.New(),
 		cache:            memory.New(),
+		opdb:             w.store,
 		vpp:              w.vpp,
 		dhcp4Providers:   map[string]dhcp4.DHCPProvider{"local": w.prov},
+		dhcp6Providers:   map[string]dhcp6.DHCPProvider{"local": w.prov6},
 		raBuckets:        make(map[int][]string),
 		raBucketCount:    16,
 	}
 	w.comp.StartContext(nil)
-	return w, nil
+	return nil
+}
+
+// settle waits until every checkpoint write issued so far has reached the store
+func (w *c02World) settle() {
+	for i := 0; i < 200000; i++ {
+		if w.comp.checkpointWriter().VerifC02Idle() {
+			return
+		}
+		time.Sleep(20 * time.Microsecond)
+	}
 }
 
 func atoi(s string) int { n, _ := strconv.Atoi(s); return n }
@@ -256,10 +377,84 @@ func (w *c02World) dhcpPkt(s *c02Sub2, mt layers.DHCPMsgType, ciaddr net.IP) *da
 		SwIfIndex: 10, DHCPv4: d}
 }
 
+func (w *c02World) v6Pkt(s *c02Sub2, mt byte) *dataplane.ParsedPacket {
+	duid := append([]byte{0, 3, 0, 1}, s.mac...)
+	raw := []byte{mt, 0, byte(s.k), 1}
+	raw = append(raw, 0, 1, 0, byte(len(duid)))
+	raw = append(raw, duid...)
+	raw = append(raw, 0, 3, 0, 12, 0, 0, 0, 1, 0, 0, 0, 0, 0, 0, 0, 0)
+	raw = append(raw, 0, 25, 0, 12, 0, 0, 0, 1, 0, 0, 0, 0, 0, 0, 0, 0)
+	layer := &layers.DHCPv6{}
+	if err := layer.DecodeFromBytes(raw, gopacket.NilDecodeFeedback); err != nil {
+		panic(err)
+	}
+	ll := net.ParseIP("fe80::200:ff:fe00:0")
+	ll[14], ll[15] = s.mac[4], s.mac[5]
+	return &dataplane.ParsedPacket{Protocol: models.ProtocolDHCPv6, MAC: s.mac, OuterVLAN: uint16(100 + s.grp),
+		SwIfIndex: 10, DHCPv6: layer, IPv6: &layers.IPv6{SrcIP: ll}}
+}
+
+// hand-written TLV walk over a DHCPv6 message: IA_NA address, IA_PD prefix
+func c02V6Told(raw []byte) (string, string) {
+	a6, pd := "nil", "nil"
+	opts := raw[4:]
+	for len(opts) >= 4 {
+		code := int(opts[0])<<8 | int(opts[1])
+		l := int(opts[2])<<8 | int(opts[3])
+		if 4+l > len(opts) {
+			break
+		}
+		body := opts[4 : 4+l]
+		if (code == 3 || code == 25) && len(body) >= 12 {
+			sub := body[12:]
+			for len(sub) >= 4 {
+				sc := int(sub[0])<<8 | int(sub[1])
+				sl := int(sub[2])<<8 | int(sub[3])
+				if 4+sl > len(sub) {
+					break
+				}
+				if code == 3 && sc == 5 && sl >= 24 {
+					a6 = c02Num(net.IP(sub[4:20]))
+				}
+				if code == 25 && sc == 26 && sl >= 25 {
+					pd = new(big.Int).SetBytes(sub[13:29]).String() + "/" + strconv.Itoa(int(sub[12]))
+				}
+				sub = sub[4+sl:]
+			}
+		}
+		opts = opts[4+l:]
+	}
+	return a6, pd
+}
+
 // decode the DHCPv4 replies published since mark with gopacket: "offer:<yi>" / "ack:<yi>" / "nak"
+// replies of one event, sorted (the v4 and v6 pending packets are replayed on two goroutines)
 func (w *c02World) replies(mark int) []string {
+	out := w.replies0(mark)
+	sort.Strings(out)
+	return out
+}
+
+func (w *c02World) replies0(mark int) []string {
 	var out []string
 	for i, raw := range w.bus.egress[mark:] {
+		if w.bus.v6[mark+i] {
+			if len(raw) < 48+4 {
+				out = append(out, "undecodable6")
+				continue
+			}
+			m := raw[48:]
+			a6, pd := c02V6Told(m)
+			switch m[0] {
+			case 2:
+				out = append(out, "adv6:"+a6+":"+pd)
+			case 7:
+				out = append(out, "rep6:"+a6+":"+pd)
+			default:
+				out = append(out, "other6")
+			}
+			continue
+		}
 		pkt := gopacket.NewPacket(raw, layers.LayerTypeIPv4, gopacket.Default)
 		if dl, _ := pkt.Layer(layers.LayerTypeDHCPv4).(*layers.DHCPv4); dl != nil {
 			for _, sub := range w.subs {
@@ -301,6 +496,27 @@ func (w *c02World) name(s *c02Sub2) {
 }
 
 func (w *c02World) op(f []string) string {
+	if f[0] == "BZ" { // the process dies and a new one restores from opdb
+		w.settle()
+		w.comp.StopContext()
+		if err := w.boot(); err != nil {
+			return "bz booterr"
+		}
+		if err := w.comp.restoreSessions(context.Background()); err != nil {
+			return "bz restoreerr"
+		}
+		w.settle()
+		var ks []string
+		for k := range w.subs {
+			ks = append(ks, k)
+		}
+		sort.Slice(ks, func(i, j int) bool { return atoi(ks[i]) < atoi(ks[j]) })
+		var parts []string
+		for _, k := range ks {
+			parts = append(parts, "s"+k+"="+w.rec(w.subs[k]))
+		}
+		return "bz " + strings.Join(parts, ",")
+	}
 	if f[0] == "BC" { // complete queued southbound callbacks (BC = in order, BCR = reverse order)
 		mark := len(w.bus.egress)
 		q := w.vpp.pending
@@ -314,6 +530,7 @@ func (w *c02World) op(f []string) string {
 				cb()
 			}
 		}
+		w.settle()
 		return "bc " + strings.Join(append(w.replies(mark), "."), ",")
 	}
 	s := w.subs[f[1]]
@@ -322,7 +539,7 @@ func (w *c02World) op(f []string) string {
 	}
 	mark, amark := len(w.bus.egress), len(w.bus.aaa)
 	tag := strings.ToLower(f[0])
-	if (f[0] == "BD" || f[0] == "BQ") && w.live(s) == nil {
+	if (f[0] == "BD" || f[0] == "BQ" || f[0] == "BS") && w.live(s) == nil {
 		s.told = nil // a new incarnation is a client that starts over: its first REQUEST names no address
 	}
 	switch f[0] {
@@ -332,6 +549,15 @@ func (w *c02World) op(f []string) string {
 	case "BQ":
 		w.comp.processDHCPPacket(w.dhcpPkt(s, layers.DHCPMsgTypeRequest, nil))
 		w.name(s)
+	case "BS":
+		w.comp.processDHCPv6Packet(w.v6Pkt(s, 1))
+		w.name(s)
+	case "BV":
+		w.comp.processDHCPv6Packet(w.v6Pkt(s, 3))
+	case "BW":
+		w.comp.processDHCPv6Packet(w.v6Pkt(s, 5))
+	case "BL":
+		w.comp.processDHCPv6Packet(w.v6Pkt(s, 8))
 	case "BA", "BJ": // AAA answer for the session's outstanding request
 		sess := w.live(s)
 		if sess == nil || !sess.AAAInFlight {
@@ -347,6 +573,15 @@ func (w *c02World) op(f []string) string {
 			}
 			if f[4] != "-" {
 				attrs["pool"] = "k" + f[4]
+			}
+			if len(f) > 6 {
+				if f[5] != "-" {
+					attrs["ipv6_address"] = c02V6(f[5]).String()
+				}
+				if f[6] != "-" {
+					parts := strings.Split(f[6], "/")
+					attrs["ipv6_prefix"] = c02V6(parts[0]).String() + "/" + parts[1]
+				}
 			}
 		}
 		w.comp.handleAAAResponse(events.Event{Data: &events.AAAResponseEvent{SessionID: sess.SessionID,
@@ -372,13 +607,36 @@ func (w *c02World) op(f []string) string {
 	default:
 		return "badop"
 	}
-	rec := "gone"
-	if sess := w.live(s); sess != nil {
-		sess.mu.Lock()
-		rec = c02Num(sess.IPv4)
-		sess.mu.Unlock()
+	w.settle()
+	return fmt.Sprintf("%s %s aaa=%d rec=%s", tag, strings.Join(append(w.replies(mark), "."), ","), len(w.bus.aaa)-amark, w.rec(s))
+}
+
+// what the component's session of the subscriber records: IPv4/IPv6 address/delegated prefix, or "gone"
+func (w *c02World) rec(s *c02Sub2) string {
+	sess := w.live(s)
+	if sess == nil {
+		return "gone"
 	}
-	return fmt.Sprintf("%s %s aaa=%d rec=%s", tag, strings.Join(append(w.replies(mark), "."), ","), len(w.bus.aaa)-amark, rec)
+	sess.mu.Lock()
+	defer sess.mu.Unlock()
+	return c02Num(sess.IPv4) + "/" + c02Num(sess.IPv6Address) + "/" + c02Pfx(sess.IPv6Prefix)
+}
+
+// the persisted images: "name:v4/v6/pd" sorted
+func (w *c02World) storeSnap() string {
+	w.store.mu.Lock()
+	defer w.store.mu.Unlock()
+	var out []string
+	for id, raw := range w.store.data {
+		var ss SessionState
+		if err := json.Unmarshal(raw, &ss); err != nil {
+			out = append(out, w.names[id]+":undecodable")
+			continue
+		}
+		out = append(out, w.names[id]+":"+c02Num(ss.IPv4)+"/"+c02Num(ss.IPv6Address)+"/"+c02Pfx(ss.IPv6Prefix))
+	}
+	sort.Strings(out)
+	return "S[" + strings.Join(out, ",") + "]"
 }
 
 func (w *c02World) rename(s string) string {
@@ -396,7 +654,8 @@ func (w *c02World) rename(s string) string {
 
 // re-sort "a=s1,b=s2" lease lists after renaming is unnecessary: they are sorted by address first.
 func (w *c02World) snap() string {
-	return w.rename(allocator.GetGlobalRegistry().VerifC02Snapshot()) + " | " + w.rename(w.prov.VerifC02Leases())
+	return w.rename(allocator.GetGlobalRegistry().VerifC02Snapshot()) + " | " + w.rename(w.prov.VerifC02Leases()) +
+		" | " + w.rename(w.prov6.VerifC02Leases()) + " | " + w.storeSnap()
 }
 
 func c02RunCase(line string) (out string) {
